@@ -31,6 +31,7 @@ func VH_C04_mem() {
 			vsym.Assume(start[j] >= 0x20 && start[j] < 0x7f)
 		}
 	}
+	keepStart := proto == 2 && start != "" && vsym.Choice("keepstart", 2) == 1
 	wantKeys, _, _, wantCPs := expectedListing(live, prefix, hasDelim, '/', start)
 	total := len(wantKeys) + len(wantCPs)
 	maxKeys := 1 + vsym.Choice("maxkeys", total+1)
@@ -60,8 +61,10 @@ func VH_C04_mem() {
 			q.Set("list-type", "2")
 			if token != "" {
 				q.Set("continuation-token", token)
-			} else if marker != "" {
-				q.Set("start-after", marker)
+			}
+			// SDK paginators repeat start-after on every page: the token decides
+			if start != "" && (token == "" || keepStart) {
+				q.Set("start-after", start)
 			}
 		}
 		r := Do(h, Req{Method: "GET", Path: "/bkt", Query: q, Header: http.Header{}})
